@@ -587,6 +587,16 @@ def _find_skip_helpers(syn, file_suffix):
 
 def _vm_guard(g, cell, lets):
     x = S.squash(g)
+    if "&&" in x:
+        parts = [_vm_guard(p, cell, lets) for p in x.split("&&")]
+        if any(p is None for p in parts):
+            return None
+        return all(parts)
+    m = re.match(r"^(!?)variant_attr\.(type_as|type_override)\.is_(none|some)\(\)$", x)
+    if m:
+        present = cell["O"] == ("as" if m.group(2) == "type_as" else "type")
+        val = present if m.group(3) == "some" else not present
+        return (not val) if m.group(1) else val
     neg = False
     if x.startswith("!"):
         neg, x = True, x[1:]
@@ -661,8 +671,8 @@ def variant_matrix_rule(syn, prop, rule="C01.R3"):
     for U in (True, False):
         for T in ("Externally", "Adjacently", "Internally", "Untagged"):
             for F in ("Unit", "Unnamed0", "Unnamed1", "Unnamed2", "Named"):
-                for Sk in ((True, False) if F == "Unnamed1" else (False,)):
-                    cell = {"U": U, "T": T, "F": F, "S": Sk, "IF": "some" if F == "Named" else "none"}
+                for Sk, O in [(sk, o) for sk in ((True, False) if F == "Unnamed1" else (False,)) for o in ("none", "as", "type")]:
+                    cell = {"U": U, "T": T, "F": F, "S": Sk, "IF": "some" if F == "Named" else "none", "O": O}
                     active = []
                     unrec = False
                     for e in temps:
@@ -694,20 +704,20 @@ def variant_matrix_rule(syn, prop, rule="C01.R3"):
                         want = {P}
                     else:
                         base = {"Externally": {"ts_name"}, "Adjacently": {"tag", "ts_name"}, "Internally": {"tag", "ts_name"}}[T]
-                        if T == "Internally" and F == "Named":
+                        if T == "Internally" and F == "Named" and O == "none":
                             want = {P}
                         elif F == "Unit" or (F == "Unnamed1" and Sk):
                             want = set(base)
                         else:
                             want = set(base) | {P} | ({"content"} if T == "Adjacently" else set())
-                    cname = "%s/%s/%s%s" % ("variant-untagged" if U else "tagged-by-enum", T, F, "/skipped" if Sk else "")
+                    cname = "%s/%s/%s%s%s" % ("variant-untagged" if U else "tagged-by-enum", T, F, "/skipped" if Sk else "", "" if O == "none" else "/variant-" + O)
                     if unrec:
                         n_unrec += 1
                         continue
                     got = [set(S.interpolations(e["tokens"])) for e in active]
                     ok = len(active) == 1 and got[0] == want
                     # literal skeleton and argument order of the selected template
-                    if ok and not (U or T == "Untagged" or (T == "Internally" and F == "Named")):
+                    if ok and not (U or T == "Untagged" or (T == "Internally" and F == "Named" and O == "none")):
                         with_payload = P in want
                         skel = {("Externally", False): '"{}"', ("Externally", True): '{{"{}":{}}}',
                                 ("Adjacently", False): '{{"{}":"{}"}}', ("Adjacently", True): '{{"{}":"{}","{}":{}}}',
@@ -730,7 +740,7 @@ def variant_matrix_rule(syn, prop, rule="C01.R3"):
                                % (cname, [e["line"] for e in active], [sorted(g) for g in got], sorted(want)), fn["file"], active[0]["line"] if active else fn["line"])
     if n_unrec:
         r.fail(prop, "unrecognised-idiom format_variant matrix", "%d cells could not be evaluated: the representation match uses a scrutinee/guard shape the evaluator does not know" % n_unrec, fn["file"], fn["line"])
-    r.floor = 48
+    r.floor = 144
     return r
 
 
